@@ -6,13 +6,13 @@ import (
 	vrt "github.com/nuetzliches/hookaido/internal/verifrt"
 )
 
-// verif:harness props=C14 tprops=C13,C02 tier=quick weight=60
+// verif:harness props=C14 tier=quick weight=60
 // verif:bounds SQLiteStore cancel/requeue/resume BY FILTER over the SQL model, selection criteria: N=2 rows on routes r0/r1 in any state with arbitrary received_at; filter: route none/r0, target none/t0/t1, state from {none, queued, dead, canceled} (thorough all six), limit from {0,1}
 func VerifC14SQLFilterCriteria() {
 	sqlFilterCore(true)
 }
 
-// verif:harness props=C14 tprops=C13 tier=quick weight=60
+// verif:harness props=C14 tier=quick weight=60
 // verif:bounds SQLiteStore cancel/requeue/resume BY FILTER over the SQL model, ordering and cursors: N=2 rows in any state with arbitrary received_at incl. ties; before-cursor absent or arbitrary, limit from {0,1,1001} (thorough adds -1,2), preview_only on/off; newest-first selection with id tie-break
 func VerifC14SQLFilterOrder() {
 	sqlFilterCore(false)
